@@ -761,6 +761,10 @@ impl Formattable for &Vec<ArgItem<Identifier>> {
 impl Formattable for &Vec<ArgItem<SpecificImportArg>> {
     fn format(&self, formatter: &mut CodeFormatter) {
         for (path, comma) in *self {
+            // The trivia in front of an argument sits on the argument itself, not on its path
+            if let Some(t) = path.trivia.as_ref() {
+                formatter.fmt(&t.data);
+            }
             formatter
                 .fmt(&path.data.path)
                 .spc_if_next()
